@@ -9,7 +9,7 @@ cmake -S "$W" -B "$W/_b" -G Ninja -DCMAKE_BUILD_TYPE=RelWithDebInfo -DCMAKE_CXX_
 cmake --build "$W/_b" -- -k 0 >/dev/null 2>&1
 echo "tests with change: $(ctest --test-dir "$W/_b" -j8 2>/dev/null | grep -c '   Passed ') passed; failed: $(ctest --test-dir "$W/_b" -j8 2>/dev/null | grep -E '^\s+[0-9]+ - ' | grep -v 'Not Run' | wc -l)"
 g++ -std=c++17 -I"$W/include" "$W/_mutant/demo.cpp" "$W"/src/*.cpp -licuuc -licudata -o /tmp/demo_with 2>/dev/null && { /tmp/demo_with >/dev/null 2>&1; echo "demo with change: exit $?"; }
-git stash -q
+git diff -- include src tools CMakeLists.txt > /tmp/_confirm_patch.diff; git apply -R /tmp/_confirm_patch.diff
 g++ -std=c++17 -I"$W/include" "$W/_mutant/demo.cpp" "$W"/src/*.cpp -licuuc -licudata -o /tmp/demo_without 2>/dev/null && { /tmp/demo_without >/dev/null 2>&1; echo "demo without change: exit $?"; }
-git stash pop -q
+git apply /tmp/_confirm_patch.diff
 git diff -- include src > "$W/_mutant/patch.confirmed.diff"
